@@ -189,22 +189,45 @@ def readStepT (s : TState) (i : Nat) (a : Int) : TState × Val :=
     let r := readNode u immune limited pen (fuelOf u + 1) s.cfg s.dyn (tblFun s.tbl) y a
     ({ s with tbl := tblOf u s.cfg r.1 }, r.2)
 
+/-- Effect ids of the type of an item (whether or not the item is loaded). -/
+def effsOf (x : Item) : List Int := match type? u x.typeId with | some t => t.effects | none => []
+
+/-- No effect of (the type of) item `i` runs. -/
+def noneOnb (s : TState) (i : Nat) : Bool :=
+  s.cfg.items.all fun x => x.id != i || (effsOf u x).all fun e => !s.dyn.on i e
+
+/-- `i` is not among the recorded targets of any projector (configured item, effect of its type). -/
+def notTargetb (s : TState) (i : Nat) : Bool :=
+  s.cfg.items.all fun a => (effsOf u a).all fun e => !(s.dyn.tgts a.id e).contains i
+
 /-- Executable form of the side conditions `L.StepOK` (EosProofs/Lemmas/MicroLegal.lean) of the message steps —
-all but `reconfig` — over the named items and effects (`DynFin` states hold nothing else).  The driver evaluates
-it before every message of the real code's stream: a `false` means the real history left the class the legality
+all but `reconfig` — over the *named* pairs: items of the configuration and the effect ids their types list
+(`DynFin` states — every state the driver is in — hold nothing else, so that `stepOKb = true` is equivalent to
+`StepOK`: `stepOKb_sound` / `stepOKb_complete` in EosProofs/Lemmas/MicroExec.lean).  The driver evaluates it
+before every message of the real code's stream: a `false` means the real history left the class the legality
 theorems cover. -/
 def stepOKb (s : TState) : MStep → Bool
-  | .load i =>
-    (s.tbl.all fun e => e.1.1 != i) && (u.effects.all fun e => !s.dyn.on i e.id) &&
-      (s.cfg.items.all fun a => u.effects.all fun e => !(s.dyn.tgts a.id e.id).contains i)
-  | .unload i =>
-    (u.effects.all fun e => !s.dyn.on i e.id) &&
-      (s.cfg.items.all fun a => u.effects.all fun e => !(s.dyn.tgts a.id e.id).contains i)
+  | .load i => (s.tbl.all fun e => e.1.1 != i) && noneOnb u s i && notTargetb u s i
+  | .unload i => noneOnb u s i && notTargetb u s i
   | .start i es | .stop i es => es.all fun e => (s.dyn.tgts i e).isEmpty
   | .apply _ _ ts => ts.all fun j => match item? s.cfg j with
-    | some t => (match t.kind with | .ship | .drone | .fighter => true | _ => false)
+    | some t => t.kind.isSolsys
     | none => true
   | .buffset i e _ => (s.dyn.tgts i e).isEmpty
+  | _ => true
+
+/-- `(i, e)` names an item of the configuration and an effect id its type lists. -/
+def namedb (cfg : Config) (i : Nat) (e : Int) : Bool :=
+  cfg.items.any fun x => x.id == i && (effsOf u x).contains e
+
+/-- Executable form of `StepFin` (EosProofs/Lemmas/MicroExec.lean; all messages but `reconfig`): the message names
+a configured item and effects of its type — the hypothesis under which the driver's `mdoT` is `mstep`
+(`stepFinb_iff`).  Not evaluated by the driver so far. -/
+def stepFinb (s : TState) : MStep → Bool
+  | .load i => s.cfg.items.any fun x => x.id == i
+  | .start i es => es.all fun e => namedb u s.cfg i e
+  | .apply i e ts => ts.isEmpty || namedb u s.cfg i e
+  | .buffset i e ms => ms.isEmpty || namedb u s.cfg i e
   | _ => true
 
 end Eos.Micro
